@@ -25,6 +25,12 @@ CLAIMED = {
  "C07": dict(engine="e4-asm", design="4/C07",
    text="Grammar-directed exhaustive enumeration of expression trees (all shapes/operators/literals up to 2 operators with every sign run on every operand, bounded sign deviations up to 4 operators, redundant parentheses, spacing, EQU-carried signs) in five contexts (operand, FOR count, ORG, END, ;assert) and four core sizes; every assembled field / accept-reject decision is compared with an exact big-integer evaluation of the tree; predefined constants under six configurations.",
    technique="bounded exhaustive grammar enumeration + independent big-integer reference evaluator"),
+ "C03": dict(engine="e4-asm", design="4/C03",
+   text="Exhaustive enumeration of abstract programs (the full opcode x modifier x mode x lone-operand grid as one-instruction programs; three-instruction skeletons in which each slot takes every template x every pair from a 22-expression symbolic operand alphabet over labels, EQUs, predefined constants and literals; ORG/END/none) in both dialects and several core sizes, plus every set of <=2 surface-rendering deviations of representative programs; CompileWarrior(render(p)) is compared with meaning(p) computed without gmars.",
+   technique="bounded exhaustive enumeration of programs x deviation-bounded renderings + independent denotational reference"),
+ "C08": dict(engine="e4-asm", design="4/C08",
+   text="Every FOR/ROF structure tree up to an item bound (depth <=3, counts 0..6 / 0..3, <=40 block expansions, counters inside operand arithmetic, block labels used inside and after the block, counts spelled via EQU or enclosing counter), and sequences of 1..14 blocks: CompileWarrior(p), CompileWarrior(unroll(p)) and meaning(unroll(p)) must agree.",
+   technique="bounded exhaustive enumeration of FOR structure trees + differential against manual unrolling and denotational reference"),
 }
 
 PENDING = {
